@@ -398,6 +398,11 @@ func (tracker *flowTracker) handleTrace(locked bool, trace tracing.ITrace, notif
 		_, sourceIsInclusive := t.Source.(*schema.InclusiveGateway)
 		var inherited *schema.Id
 		if !sourceIsInclusive {
+			// (the forking flow itself is not among the flows when its own sequence
+			// flow was not taken: it is named by the trace)
+			if location, ok := tracker.flows[t.Origin]; ok && tracker.forks[location] {
+				inherited = &location
+			}
 			for _, snapshot := range t.Flows {
 				if location, ok := tracker.flows[snapshot.Id()]; ok && tracker.forks[location] {
 					inherited = &location
